@@ -16,7 +16,8 @@
    Stride / Offset select every Stride-th input (quick tier); Stride = 1 is the whole family. *)
 EXTENDS LvsTree
 
-CONSTANTS Mode, Stride, Offset
+CONSTANTS Mode, Stride, Offset,
+          FocusStride, FocusOffset      \* denser sampling of the family members with the shapes of Focus
 
 ENames == SetToSeq(NamesUpTo(MaxLen))        \* names over {"a","b","c"}; schemas use the same alphabet
 P(p) == [k |-> "p", p |-> p]
@@ -37,6 +38,8 @@ HasX(r1, name) == \E j \in 1..Len(name) : (name[j].k = "p" /\ name[j].p = "x")
 Cons2(r1, n) == {<<>>} \cup (IF HasX(r1, n) THEN {<< <<C1("x", <<Lit("b"), Lit("c")>>)>> >>} ELSE {})
 Rule2New(r1) == UNION {{Rule("#r2", n, c, <<>>) : c \in Cons2(r1, n)} : n \in Seqs12({Lit("b"), P("x"), R("#r1")})}
 Rule2Redef   == {Rule("#r1", n, <<>>, <<>>) : n \in Seqs12({Lit("b"), P("x")})}                \* redefinition
+                \cup  \* a redefinition using the temporary identifier of the first definition, with a constraint of its own
+                {Rule("#r1", n, << <<C1("_t", <<Lit("b")>>)>> >>, <<>>) : n \in {<<P("_t")>>, <<Lit("b"), P("_t")>>, <<P("_t"), Lit("b")>>}}
 Rule3s(r2)   == {<<>>, <<Rule("#r3", <<R("#r1"), R("#r1")>>, <<>>, IF r2.id = "#r2" THEN <<"#r2">> ELSE <<>>)>>}
 (* signing between the first two rules: none, #r2 signed by #r1, #r1 signed by #r2 *)
 Signed(r1, r2) == {<<r1, r2>>} \cup (IF r2.id = "#r2" THEN {<<r1, [r2 EXCEPT !.sign = <<"#r1">>]>>,
@@ -62,7 +65,15 @@ BadFamily == {<<Rule("#r1", n, c, s), r2>> : n \in BadNames, c \in BadCons, s \i
 
 Family == IF Mode \in {"schemas", "checks", "laws"} THEN SetToSeq(WfFamily) ELSE IF Mode = "illformed" THEN SetToSeq(BadFamily) ELSE <<>>
 Count  == IF Mode = "trees" THEN Len(TreeList) ELSE Len(Family)
+(* shapes where compiler passes interact: a rule defined twice and referred to twice (#r3: #r1/#r1), in particular
+   both definitions constraining a temporary pattern of the same identifier *)
+HasTemp(r) == \E j \in 1..Len(r.name) : r.name[j].k = "p" /\ IsTempPat(r.name[j].p)
+Focus(s)   == Len(s) = 3 /\ s[2].id = "#r1" /\
+              \/ (HasTemp(s[1]) /\ HasTemp(s[2]) /\ Len(s[1].cons) > 0 /\ Len(s[2].cons) > 0)
+              \/ (s[1].sign # s[2].sign /\ s[1].name = s[2].name)
 Picked == {i \in 1..Count : i % Stride = Offset % Stride}
+          \cup (IF Mode \in {"schemas", "checks"}
+                THEN {i \in 1..Count : Focus(Family[i]) /\ i % FocusStride = FocusOffset % FocusStride} ELSE {})
 
 ExpSchema(i) == LET S == [rules |-> Family[i]]  CH == AllChains(S) IN
   <<"E", i, S.rules,
